@@ -34,6 +34,33 @@ def check(run):
     base = engine.gen_cases(run, 25 if run.tier == "quick" else 400,
                             profile={"raise_kinds": ["Base", "Base", "Exception"], "p_fail": 0.3, "p_raise_in_fail": 0.8},
                             threads=(1, 2, 3), prefix="b")
+    # ... also when the BaseException comes out of a teardown that is executed through the SKIP path of its task (teardown tasks
+    # still tear down when they are skipped: after AbortAllTests, --stop-on-failure, a keyboard interrupt)
+    for c in base:
+        x = run.rng.random()
+        if x < 0.35:
+            c["options"]["stop_on_failure"] = True
+        elif x < 0.6:
+            c["interrupt_at"] = run.rng.randint(0, 8)
+    import copy
+    for k, (hook_td, nthreads) in enumerate([(False, 1), (False, 2), (True, 1), (True, 2)]):
+        d = copy.deepcopy(base[0])
+        d["id"] = "bd%d" % k
+        d.pop("interrupt_at", None)
+        d["options"].update({"nb_threads": nthreads, "stop_on_failure": False, "force_disabled": False})
+        nohooks = {"setup_suite": None, "teardown_suite": None, "setup_test": None, "teardown_test": None}
+        d["project"] = {
+            "fixtures": [{"name": "f5", "scope": "suite" if hook_td else "session", "params": [], "per_thread": False, "generator": True,
+                          "setup": [["mark", 1]], "teardown": [["raise", "Base"]]}],
+            "suites": [{"name": "s6", "disabled": False, "rank": 0,
+                        "hooks": dict(nohooks, teardown_suite=[["raise", "Base"]]) if hook_td else nohooks, "injected": [],
+                        "tests": [{"name": "t7", "disabled": False, "rank": 0, "deps": [], "args": ["f5"], "params": {},
+                                   "body": [["raise", "AbortAllTests"]]},
+                                  {"name": "t8", "disabled": False, "rank": 1, "deps": [], "args": ["f5"], "params": {},
+                                   "body": [["mark", 2]]}],
+                        "subs": []}]}
+        d.pop("scheduled_project", None)
+        base.append(d)
     bres = engine.cosim(run, base, layers=(1, 2))
     for c in base:
         r = bres.get(c["id"]) or {"outcome": ["hang", "no result"]}
